@@ -118,6 +118,7 @@ type policyFile struct {
 	FieldName []policyPat `json:"fieldname"`
 	Namespace []policyPat `json:"namespace"`
 	Pipeline  []policyPat `json:"pipeline"`
+	OpMap     []policyPat `json:"operatormap"`
 	MustKeep  []policyReq `json:"mustkeep"`
 	NsReq     []policyReq `json:"namespace_required"`
 	TopSearch []string    `json:"top_level_search_operators"`
@@ -141,7 +142,7 @@ func loadPolicy() (*policyFile, error) {
 	if err := json.Unmarshal(b, &p); err != nil {
 		return nil, err
 	}
-	for _, l := range [][]policyPat{p.Exempt, p.FieldName, p.Namespace, p.Pipeline} {
+	for _, l := range [][]policyPat{p.Exempt, p.FieldName, p.Namespace, p.Pipeline, p.OpMap} {
 		for i := range l {
 			re, err := regexp.Compile(l[i].Pattern)
 			if err != nil {
@@ -192,8 +193,8 @@ func (s *Session) tableObligations(prop string) []*Obligation {
 		add(&Obligation{Name: "tables/policy", Fn: "tables", Kind: "table", Props: []string{"C01", "C04", "C12"}, Backend: "table-eval", Result: "error", Raw: err.Error()})
 		return out
 	}
-	byOp := map[int][]policyPat{1: pol.Exempt, 3: pol.FieldName, 6: pol.Namespace, 0: pol.Pipeline}
-	propsOf := map[int][]string{1: {"C01", "C02", "C15"}, 3: {"C01", "C02", "C15"}, 6: {"C01", "C12"}, 0: {"C01"}}
+	byOp := map[int][]policyPat{1: pol.Exempt, 3: pol.FieldName, 6: pol.Namespace, 0: pol.Pipeline, 5: pol.OpMap}
+	propsOf := map[int][]string{1: {"C01", "C02", "C15", "C04"}, 3: {"C01", "C02", "C15"}, 6: {"C01", "C12"}, 0: {"C01"}, 5: {"C14", "C01", "C04"}}
 	entryOp := map[string]int{}
 	keyOps := map[string]map[int]bool{} // key name -> set of operator types it is mapped to anywhere
 	for _, e := range td.Entries {
